@@ -198,6 +198,17 @@ def run(ctx):
     combos = [(c, r, q) for c in cfgs for r in rps for q in (reqs if ctx.thorough else rng.sample(reqs, 3))]
     if not ctx.thorough:
         combos = [x for x in combos if x[0] is None or x[1] is None or rng.random() < 0.55]
+    # every port number with its own segment encoding (1..14 inline, 15 and up extended), with a numeric and with an address link, alone
+    # and behind the configured hop: each differs from the personality 1/0 and must be refused by it, and accepted by its own personality
+    wr = reqs[2]
+    for pnum in list(range(1, 18)) + [255, 256]:
+        for link in (0, (1, 2, 3, 4)):
+            if (pnum, link) != (1, 0):
+                combos.append(([(1, 0)], [(pnum, link)], wr))
+            combos.append(([(1, 0)], [(1, 0), (pnum, link)], wr))
+            if pnum in (13, 14, 15, 16):
+                combos.append(([(pnum, link)], [(pnum, link)], wr))
+                combos.append(([(pnum, (1, 2, 3, 4))], [(pnum, (1, 2, 3, 5))], wr))
     # a bare (unwrapped) Read Tag Fragmented is service 0x52 = Unconnected Send: documented ambiguity, never sent bare
     combos = [x for x in combos if not (x[1] is None and x[2][0] == 'readf')]
     cases, obs = [], []
